@@ -49,7 +49,7 @@ func checkC04(c *Ctx, r *Report) {
 					}
 				}
 				// no reordering
-				ast.Inspect(fi.Decl, func(n ast.Node) bool {
+				w.inspectRegion(fi, func(n ast.Node) bool {
 					if cl, ok := n.(*ast.CallExpr); ok {
 						cn := calleeOfCall(fi.Pkg.TypesInfo, cl)
 						if strings.HasPrefix(cn, "sort.") || strings.HasPrefix(cn, "slices.Sort") || cn == "slices.Reverse" {
@@ -75,7 +75,7 @@ func checkC04(c *Ctx, r *Report) {
 		if fi := need(c, r, "C04.a", gos); fi != nil {
 			viol := ""
 			var sites []string
-			ast.Inspect(fi.Decl, func(n ast.Node) bool {
+			w.inspectRegion(fi, func(n ast.Node) bool {
 				as, ok := n.(*ast.AssignStmt)
 				if !ok || len(as.Lhs) != 1 || as.Tok != token.ASSIGN {
 					return true
@@ -264,7 +264,7 @@ func checkSecurityMethod(c *Ctx, r *Report, ver, bsm, secComp string) {
 			viol = fmt.Sprintf("%s: requirement scopes are not the annotation's Scopes unmodified (%s)", w.pos(pos), va)
 		}
 	}
-	ast.Inspect(fi.Decl, func(n ast.Node) bool {
+	w.inspectRegion(fi, func(n ast.Node) bool {
 		switch x := n.(type) {
 		case *ast.AssignStmt:
 			if len(x.Lhs) == 1 && len(x.Rhs) == 1 {
@@ -653,7 +653,7 @@ func checkEnforceFlag(c *Ctx, r *Report) {
 // constNamed: the function references a constant with that name.
 func constNamed(fi *FuncInfo, name string) bool {
 	found := false
-	ast.Inspect(fi.Decl, func(n ast.Node) bool {
+	curWorld.inspectRegion(fi, func(n ast.Node) bool {
 		if id, ok := n.(*ast.Ident); ok {
 			if cst, ok := fi.Pkg.TypesInfo.Uses[id].(*types.Const); ok && cst.Name() == name {
 				found = true
